@@ -2,6 +2,7 @@ import MosnVerif.Lemmas.DownstreamProps
 import MosnVerif.Lemmas.Downstream.Parked
 import MosnVerif.Lemmas.Downstream.Prov
 import MosnVerif.Lemmas.Downstream.Backoff9
+import MosnVerif.Lemmas.Downstream.Timer10
 /-!
 # C03 — every request ends exactly once, with one reply, in bounded time (property theorems only)
 
@@ -645,5 +646,40 @@ example : ((fun (s : S) => (s.phase, s.trace))
     (reach {} 0 0 (List.replicate 12 .work ++ [.upRespS 0 200 true false, .work, .work, .upReset 0 .StreamRemoteReset] ++
       List.replicate 4 .work))) =
     ([.un 0, .uh 0 true, .dh 502 true, .log 502 16], true, 0) := by decide
+
+/-! ## proxy10: the global timer is armed once per request -/
+
+/-- **global_timer_armed_once**: on EVERY schedule — retries, late frames, timer callbacks inside the retry set-up, the client's
+departure, TerminateStream at any sleeping point — the global timer of a request is created at most once (`gtGen ≤ 1`), and not
+before the request was completely sent.  The arm sites are regenerated: `onUpstreamRequestSent` is the only function of
+pkg/proxy that assigns `responseTimer` a timer, `cleanUp` the only one that forgets it, and `onUpstreamRequestSent` is called by
+`receiveHeaders` / `receiveData` / `receiveTrailers` (for the part that completes the request) and by `doRetry` (when no timer
+object exists); the machine's `onUpstreamRequestSent` IS the regenerated step program. -/
+theorem global_timer_armed_once (c : Cfg) (ar aq : Nat) (l : List Label) :
+    (reach c ar aq l).gtGen ≤ 1 ∧ ((reach c ar aq l).reqSent = false → (reach c ar aq l).gtGen = 0) ∧
+    Gen.ProxyBackoff.armSites = ["onUpstreamRequestSent"] ∧ Gen.ProxyBackoff.forgetSites = ["cleanUp"] ∧
+    Gen.ProxyBackoff.requestSentCallers = ["doRetry", "receiveData", "receiveHeaders", "receiveTrailers"] ∧
+    (∀ s : S, onUpstreamRequestSent c s = Gen.ProxyBackoff.onUpstreamRequestSent (sentOps c) s) := by
+  have t := tinv_run c ar aq l
+  exact ⟨t.once, t.unsent, global_timer_sites.1, global_timer_sites.2.1, global_timer_sites.2.2,
+    onUpstreamRequestSent_regenerated c⟩
+
+/-- **retry_setup_regenerated**: the pieces of the retry set-up the machine uses are the regenerated step programs of the Go
+functions (`Gen.ProxyBackoff`): `setupRetry` (expiry test, mark, reset of the upstream request, per-try timer, swing of the
+response slot — with the worker's two yield sites as interleaving points), the global timer callback (clean test, expiry
+record, compare-and-swap, `onResponseTimeout`), `upstreamRequest.OnResetStream` (dropped when the request is marked), and the
+condition under which `cleanStream` resets the upstream request (independent of the phase and of the mark). -/
+theorem retry_setup_regenerated (c : Cfg) (s : S) :
+    (∀ eos, setupRetry c s eos = Gen.ProxyBackoff.setupRetry (srOps c) id id eos s) ∧
+    (globalFire c s = if !s.global then s else Gen.ProxyBackoff.globalCallback (gcOps c) { s with global := false }) ∧
+    (∀ r, upOnResetStream s r = Gen.ProxyBackoff.onResetStream (rsOps r) s) ∧
+    (∀ p m, Gen.ProxyBackoff.cleanResets (resetFlags c s) p m = (s.up.isSome && !s.procDone && !c.oneway)) :=
+  ⟨setupRetry_regenerated c s, globalFire_regenerated c s, upOnResetStream_regenerated s, cleanResets_regenerated c s⟩
+
+/-- non-vacuity: a request with a body whose first attempt is refused half-way arms its global timer at the first retry — once -/
+example : ((fun (s : S) => (s.gtGen, s.global, s.gtObj))
+    (reach { hasData := true, retryOn := true, numRetries := 2 } 0 0
+      ([.poolFail .connfail] ++ List.replicate 12 .work ++ [.upReset 1 .StreamConnectionFailed] ++ List.replicate 4 .work))) =
+    (1, true, true) := by decide
 
 end MosnVerif.Props.C03
